@@ -85,6 +85,16 @@ MatApi == {"t2r", "r2t", "tr2rt", "rt2tr", "trinv", "trinv2", "trlog(R)", "trlog
            "SO3(R)", "SE3(T)", "SO2(R)", "SE2(T)", "UnitQuaternion(R)", "Twist3(se3)", "Twist2(se2)",
            "SE3([T,T])", "SO3([R,R])", "SE3*points", "SO3*points", "SE2*points", "UnitQuaternion*points"}
 
+\* entries documented ":SymPy: supported" (C16) and the symbolic pose expressions built over them
+SymApi == {"rotx", "roty", "rotz", "trotx", "troty", "trotz", "transl", "eul2r", "eul2tr", "delta2tr", "trinv", "trinv2",
+           "tr2delta", "tr2jac", "skew", "vex", "skewa", "vexa", "det", "norm", "normsq", "cross", "qpow", "conj",
+           "SO3.Rx", "SO3.Ry", "SO3.Rz", "SO3.Eul", "SO3.RPY", "SE3.Rx", "SE3.Ry", "SE3.Rz", "SE3.Tx", "SE3.Ty", "SE3.Tz",
+           "SE3.Eul", "SE3.RPY", "SE3.Delta", "SE3(x,y,z)", "SE3.t", "SE3.R", "SE3.inv", "SE3.Ad", "SE3.jacob",
+           "Twist3.Rx", "Twist3.Ry", "Twist3.Rz"}
+SymExprs == {"SE3.Rx*SE3.Tx", "SE3.Rz*SE3.Ry*SE3.Rx", "(SE3.Rx*SE3.Ty).inv", "SE3.Rx*SE3.Tx*point", "SO3.Rx*SO3.Ry",
+             "SO3.Rz.inv", "SO3.Rx*point", "SE3.Rx*SE3.Rx.inv", "SE3.Rz**2", "SE3.Tx/SE3.Rz"}
+SymModes == {"all-symbolic", "mixed"}
+
 FormsOf(layer) == IF layer = "base" THEN {"list", "tuple", "array", "row", "column"}
                   ELSE {"list", "tuple", "array"}
 ElemTypes == {"int", "float"}
@@ -148,6 +158,11 @@ MatCall(n, k) ==
   /\ call' = [op |-> "mat", name |-> n, kind |-> k]
   /\ expect' = "arguments-unchanged"
 
+SymCall(n, mode) ==
+  /\ call.op = "none"
+  /\ call' = [op |-> "sym", name |-> n, mode |-> mode]
+  /\ expect' = "symbolic-equals-numeric"
+
 ScalarCall(n) ==
   /\ call.op = "none"
   /\ call' = [op |-> "scalars", name |-> n]
@@ -162,10 +177,12 @@ Next ==
   \/ \E n \in OrderIn : \E o \in GoodOrders \cup BadOrders : OrderCall(n, o)
   \/ \E n \in ScalarForms : ScalarCall(n)
   \/ \E n \in MatApi : \E k \in MatKinds : MatCall(n, k)
+  \/ \E n \in SymApi \cup SymExprs : \E mode \in SymModes : SymCall(n, mode)
 
 Spec == Init /\ [][Next]_vars
 
 Names == { e.name : e \in VecApi } \cup UnitIn \cup UnitOut \cup OrderIn \cup ScalarForms \cup MatApi
+SymNames == SymApi \cup SymExprs
 TableSanity ==
   /\ \A e \in VecApi : Len(e.dims) \in 1..2 /\ \A k \in DOMAIN e.dims : e.dims[k] # {} /\ e.dims[k] \subseteq 0..8
   /\ \A e1, e2 \in VecApi : e1.name = e2.name => e1 = e2
